@@ -118,6 +118,9 @@ def l1(model: Model, rep: Report):
         rep.check(has_len or CUR in atoms_of(test), "C02.L1", construct + "[loop-test]", f.loc, found=show(test), required="continue while the layer is non-empty",
                   what="the traversal may stop before the deepest layer", detail="test")
         result_vars = set()
+        record_field: Dict[Term, str] = {}
+        if any(e.kind == "yield" for bp in body for e in flat_events(bp)):
+            raise AnalysisError(f"{construct}: the layers are yielded by a generator the walk runs in instead of being appended to a result (shape not read; nothing decided)")
         for bp in body:
             if bp.exit not in ("fall", "continue"):
                 problems.append(f"layer loop left by {bp.exit}")
@@ -126,6 +129,20 @@ def l1(model: Model, rep: Report):
                 problems.append(f"layer handling is conditional on {show(extra_atoms[0])}")
             # (a) result.append(CUR)
             apps = [c for e in bp.events if e.kind == "effect" for c in find_calls(e.term, "append") if c[2] == (CUR,)]
+            if not apps:
+                # the layer recorded as one field of a per-layer record: ``result.append(Layer(nodes=<layer>, ...))``
+                for e in bp.events:
+                    if e.kind != "effect" or e.term is None:
+                        continue
+                    for c in find_calls(e.term, "append"):
+                        a_ = c[2][0] if len(c[2]) == 1 else None
+                        while a_ is not None and a_[0] == "var" and len(a_) == 4:
+                            a_ = a_[3]
+                        if a_ is not None and a_[0] == "new":
+                            hit_ = [k_ for k_, v_ in a_[2] if v_ == CUR]
+                            if len(hit_) == 1 and c not in apps:
+                                apps.append(c)
+                                record_field[c[1][1]] = hit_[0]
             if len(apps) != 1:
                 problems.append(f"{len(apps)} recordings of the current layer")
             else:
@@ -265,6 +282,13 @@ def l1(model: Model, rep: Report):
         sets = [c for e in p.events if e.kind == "effect" for c in find_calls(e.term, "__setattr__")]
         cached = [c for c in sets if len(c[2]) == 3 and c[2][1] == ("const", "_cached_branch_iterator")]
         ok = len(cached) == 1 and len(result_vars) == 1 and cached[0][2][2] in result_vars and cached[0][2][0] == s
+        if not ok and len(cached) == 1 and len(result_vars) == 1 and cached[0][2][0] == s and list(result_vars)[0] in record_field:
+            # the layers were recorded as a field of per-layer records: the cache is the projection of that field, in order, nothing filtered
+            rv = list(result_vars)[0]
+            from .common import devar as _dv
+            cv = _dv(cached[0][2][2])
+            ok = (cv[0] == "comp" and cv[1] == "list" and len(cv[3]) == 1 and not cv[3][0][1] and _dv(cv[3][0][0]) == _dv(rv) and cv[2][0] == "attr"
+                  and cv[2][1][0] == "bound" and cv[2][2] == record_field[rv])
         rep.check(ok, "C02.L1", construct + "[cache]", f.loc, found=[show(c) for c in cached], required="_cached_branch_iterator := the recorded layers",
                   what="the recorded layers are not what the iterators read", detail="cache")
     rep.floor("paths of _update_branch_iterator", n, 1)
